@@ -80,8 +80,18 @@ func checkC04(p *Prog, r *Report) {
 			sn := p.F(s.Args[1], "segment", "sn")
 			rcvNxt := p.F(base, "KCP", "rcv_nxt")
 			rcvWnd := p.F(base, "KCP", "rcv_wnd")
+			upper := lt(p.Diff(sn, add(rcvNxt, rcvWnd)), tConst(0))
+			// a narrower window also bounds the buffer: rcv_nxt + wnd_unused() (<= rcv_wnd by C04.W3)
+			narrow := lt(p.Diff(sn, add(rcvNxt, normTerm(tCall(p.Method("KCP", "wnd_unused"), base)))), tConst(0))
+			narrowC := lt(p.Diff(sn, add(rcvNxt, &Term{Op: "conv", Str: "uint32", Args: []*Term{normTerm(tCall(p.Method("KCP", "wnd_unused"), base))}})), tConst(0))
+			if !fs.Holds(upper) && (fs.Holds(narrow) || fs.Holds(narrowC)) {
+				upper = narrow
+				if fs.Holds(narrowC) {
+					upper = narrowC
+				}
+			}
 			req := []*Term{
-				lt(p.Diff(sn, add(rcvNxt, rcvWnd)), tConst(0)),
+				upper,
 				le(tConst(0), p.Diff(sn, rcvNxt)),
 				not(p.M(p.F(base, "KCP", "rcv_buf"), "segmentHeap", "Has", sn)),
 			}
